@@ -600,6 +600,24 @@ func (env *SpecEnv) call(e *Expr) *SV {
 		n := env.evalInt(e.Args[1])
 		k := env.evalInt(e.Args[2])
 		return &SV{T: x.ubit(v.T, n, k)}
+	case "byteOf":
+		// byteOf(v, j): byte j of v, j = 0 is the least significant byte
+		argN(2)
+		v := env.eval(e.Args[0])
+		j := env.evalInt(e.Args[1])
+		w := v.T.S.W
+		if j.IsIntLit() {
+			jj := int(j.Val.Int64())
+			if jj < 0 || jj*8 >= w {
+				return &SV{T: BVLit(0, 8), Ty: types.Typ[types.Uint8]}
+			}
+			return &SV{T: Extract(v.T, jj*8+7, jj*8), Ty: types.Typ[types.Uint8]}
+		}
+		r := BVLit(0, 8)
+		for jj := w/8 - 1; jj >= 0; jj-- {
+			r = Ite(App("=", SBool, j, IntLit(int64(jj))), Extract(v.T, jj*8+7, jj*8), r)
+		}
+		return &SV{T: r, Ty: types.Typ[types.Uint8]}
 	case "bitOfByte":
 		argN(2)
 		v := env.eval(e.Args[0])
